@@ -26,7 +26,8 @@ def traces(ctx, mode, n, batch=1500):
                                  "actual": "recorder still running after %d s" % RECORDER_TIMEOUT_S})
             continue
         if p.returncode != 0:
-            raise c.ToolError("fwdrec failed: " + p.stderr[-500:])
+            c.recorder_failed(ctx, "fwdrec", p, "forward-trace")
+            continue
         info = json.loads(p.stdout.strip().splitlines()[-1])
         for key in ("programs", "executes", "firings", "errors"):
             total[key] += info[key]
